@@ -9,8 +9,10 @@ CHECK = {
     "rule": "every suite first enumerates, for every JSON field of every section (15 sections, 154 fields read from the sources), "
             "the fixed boundary pool of its type (zero, small, 4095/4096/4097, negative, huge, overflow, wrong JSON types, null; durations "
             "'0s','1ns','60s','-1s', max, '', 'abc'; multiaddresses, peer lists, secrets) plus every default/omit constant of a same-typed "
-            "sibling, in the suite's modes (sweep: fresh object, dirty object, malformed-neighbour pairs, TLS files; file: full 14-section "
-            "config.Manager file + section/file shape variants; env: CLUSTER_<SECTION>_<FIELD> over the default and over a loaded non-default "
+            "sibling, in the suite's modes (sweep: fresh object, dirty object, malformed-neighbour pairs, TLS files, every path-valued "
+            "setting with relative/absolute/dotted values under an absolute and a relative base directory with a generated key pair on disk; file: "
+            "full 14-section config.Manager file + section/group/file shape variants + the same path cases through a file written to and loaded "
+            "from a directory other than the cwd; env: CLUSTER_<SECTION>_<FIELD> over the default and over a loaded non-default "
             "value), then n seeded random cases (random field, random value of its type, 1/12 byte-mangled JSON); non-trivial = the loader "
             "accepted or refused a set value (unset/null accepted cases are trivial); distinct by case line",
     "trusted_base": ["go/ast pattern matcher harness/common/c15_schema.go (fail-closed: unmatched references become kind custom)",
